@@ -42,10 +42,19 @@ def check_v1(it, fn, a):
     from ofxtools.header import parse_header
     data, fields = v1_file(sep, blanks, lead, gap, charset, encoding, uid, body, compression)
     try:
+        first, _ = parse_header(io.BytesIO(data))
+        # what a caller does with the header it was handed (here: rotating the file ids) is its own business: the
+        # next file parsed - the same bytes again - reports what the FILE says
+        try:
+            first.oldfileuid, first.newfileuid = first.newfileuid, "CALLER-CHANGED-THIS"
+        except Exception:
+            pass
         header, msg = parse_header(io.BytesIO(data))
     except Exception as ex:
         return [f"{type(ex).__name__}: {ex}"]
     problems = []
+    if header is first:
+        problems.append("two parses returned the same header object")
     if msg != expected_body(body):
         problems.append(f"body {msg!r} != {expected_body(body)!r}")
     got = {"VERSION": str(header.version), "CHARSET": header.charset, "ENCODING": header.encoding, "NEWFILEUID": header.newfileuid,
@@ -61,6 +70,11 @@ def check_v2(it, fn, a):
     from ofxtools.header import parse_header
     data, fields = v2_file(quote, layout, body)
     try:
+        first, _ = parse_header(io.BytesIO(data))
+        try:
+            first.newfileuid = "CALLER-CHANGED-THIS"
+        except Exception:
+            pass
         header, msg = parse_header(io.BytesIO(data))
     except Exception as ex:
         return [f"{type(ex).__name__}: {ex}"]
@@ -68,7 +82,7 @@ def check_v2(it, fn, a):
     if msg != expected_body(body):
         problems.append(f"body {msg!r} != {expected_body(body)!r}")
     if str(header.version) != fields["VERSION"] or header.newfileuid != fields["NEWFILEUID"]:
-        problems.append("fields")
+        problems.append(f"fields: version {header.version} newfileuid {header.newfileuid!r}, the file says {fields}")
     return problems
 
 
